@@ -2,8 +2,10 @@
 from __future__ import annotations
 
 import ast
+import itertools
 from typing import Dict, FrozenSet, List, Optional, Set
 
+from .. import sym
 from ..core import AnalysisError, FunctionInfo, Project, dotted, is_const, kwarg, norm, param_names, walk_no_nested
 from ..util import assignments, count_negations, returns_of, stmt_text
 from .shared import MAT, NARWHALS, PANDAS
@@ -60,6 +62,9 @@ class Pred:
             return frozenset(out)
         if isinstance(e, ast.UnaryOp) and isinstance(e.op, ast.Not):
             return frozenset(ALL - self.expr(e.operand))
+        if isinstance(e, ast.IfExp):
+            c = self.expr(e.test)
+            return frozenset((c & self.expr(e.body)) | ((ALL - c) & self.expr(e.orelse)))
         if isinstance(e, ast.Compare) and len(e.ops) == 1:
             l, r, op = e.left, e.comparators[0], e.ops[0]
             if norm(l) == f"{a}.dtype" and norm(r) in ("object", "numpy.object_", "'object'", "'O'") and isinstance(op, (ast.Eq, ast.NotEq, ast.Is, ast.IsNot)):
@@ -202,25 +207,41 @@ def r2(ctx):
     stores = [s for s in ast.walk(f.node) if isinstance(s, ast.Assign) and norm(s.targets[0]) == "self.factor_cache[factor.expr]"]
     ok = len(stores) == 1 and "values=value" in norm(stores[0].value) and stores[0].lineno > b.lineno
     ctx.check(ok, "C08.R2", "only kind-resolved values are cached", f.where, ctx.construct(f, text="cache store"), "factor_cache must receive the re-wrapped value")
-    wrap = [n for n in ast.walk(f.node) if isinstance(n, ast.If) and norm(n.test) == "not isinstance(value, FactorValues)"]
+    wrap = [n for n in ast.walk(f.node) if isinstance(n, ast.stmt) and sym.pm_any([
+        "if not isinstance(value, FactorValues): value = FactorValues(value)", "value = value if isinstance(value, FactorValues) else FactorValues(value)",
+        "value = FactorValues(value) if not isinstance(value, FactorValues) else value"], n) is not None]
     ok = len(wrap) == 1 and wrap[0].lineno < b.lineno
     ctx.check(ok, "C08.R2", "every evaluated value is wrapped (default kind UNKNOWN) before the kind test", f.where, ctx.construct(f, text="wrap"),
               "`if not isinstance(value, FactorValues): value = FactorValues(value)` must precede the kind resolution")
     g = P.func(MAT + "._encode_evaled_factor")
-    chain = [n for n in ast.walk(g.node) if isinstance(n, ast.If) and norm(n.test) == "factor.metadata.kind is Factor.Kind.CATEGORICAL"]
-    ctx.floor("C08.R2", len(chain), 1, "kind dispatch chains in _encode_evaled_factor")
-    n, kinds = chain[0], []
-    while isinstance(n, ast.If):
-        kinds.append(norm(n.test).split(".")[-1])
-        nxt = n.orelse
-        n = nxt[0] if len(nxt) == 1 and isinstance(nxt[0], ast.If) else nxt
-    ok = kinds == ["CATEGORICAL", "NUMERICAL", "CONSTANT"] and isinstance(n, list) and n and isinstance(n[0], ast.Raise) and "FactorEncodingError" in norm(n[0])
-    ctx.check(ok, "C08.R2", "encoding dispatches on CATEGORICAL / NUMERICAL / CONSTANT and raises for anything else", g.module.line(chain[0]),
+    # under which kinds each encoder runs, and under which the function refuses (if/elif chain, nested else, or guards: same formula)
+    from ..util import atom_mapper, reach_condition, truth_table
+    am = atom_mapper({f"factor.metadata.kind is Factor.Kind.{k}": i for i, k in enumerate(("CATEGORICAL", "NUMERICAL", "CONSTANT"))})
+    on_kind = lambda c: "metadata.kind" in norm(c)
+    want = {"_encode_categorical": lambda c, n, k: c, "_encode_numerical": lambda c, n, k: (not c) and n, "_encode_constant": lambda c, n, k: (not c) and (not n) and k}
+    sites, kinds, pair_ok = {}, [], True
+    for st in walk_no_nested(g.node):
+        if not isinstance(st, (ast.Assign, ast.Expr, ast.Return)):
+            continue
+        for enc in want:
+            if any(isinstance(c, ast.Call) and norm(c) == f"map_dict(self.{enc})" for c in ast.walk(st)):
+                sites.setdefault(enc, []).append(st)
+    ctx.floor("C08.R2", len(sites), 1, "kind dispatch chains in _encode_evaled_factor")
+    for enc, fn_ in want.items():
+        sts = sites.get(enc, [])
+        tabs = [truth_table(rc, am, 3) if rc is not None else None for rc in (reach_condition(P, st, keep=on_kind) for st in sts)]
+        good = len(sts) == 1 and tabs[0] == tuple(fn_(c, n, k) for c, n, k in itertools.product([False, True], repeat=3))
+        if sts:
+            kinds.append(enc.split("_")[-1].upper())
+        pair_ok = pair_ok and good
+    refuse = [n for n in walk_no_nested(g.node) if isinstance(n, ast.Raise) and "FactorEncodingError" in norm(n)]
+    rt = [truth_table(rc, am, 3) for rc in (reach_condition(P, r_, keep=on_kind) for r_ in refuse) if rc is not None]
+    ok = kinds == ["CATEGORICAL", "NUMERICAL", "CONSTANT"] and any(t_ == tuple((not c) and (not n) and (not k) for c, n, k in itertools.product([False, True], repeat=3)) for t_ in rt)
+    first = (sites.get("_encode_categorical") or [g.node])[0]
+    ctx.check(ok, "C08.R2", "encoding dispatches on CATEGORICAL / NUMERICAL / CONSTANT and raises for anything else", g.module.line(first),
               ctx.construct(g, text="kind dispatch"), f"dispatch chain handles {kinds}")
     # each branch uses the matching encoder
-    t = norm(chain[0])
-    ok = "map_dict(self._encode_categorical)" in t.split("elif")[0] and "map_dict(self._encode_numerical)" in t and "map_dict(self._encode_constant)" in t
-    ctx.check(ok, "C08.R2", "each kind is encoded by its own encoder", g.module.line(chain[0]), ctx.construct(g, text="kind → encoder"), "kind/encoder pairing changed")
+    ctx.check(pair_ok, "C08.R2", "each kind is encoded by its own encoder", g.module.line(first), ctx.construct(g, text="kind → encoder"), "kind/encoder pairing changed")
 
 
 def r3(ctx):
